@@ -257,7 +257,18 @@ def check_c10(out, tier):
     return out.finish("exploration")
 
 
+# which optional feature a projection needs in order to be observable at all
+C15_TAG_FEATURE = {"prev": "TRANSITION_HISTORY", "tt": "TRANSITION_HISTORY", "last": "TRANSITION_HISTORY", "prev.payload": "TRANSITION_HISTORY",
+                   "plans": "PLANS", "pex": "PLANS", "succ": "PLANS", "fail": "PLANS", "hst": "PLANS", "sst": "PLANS", "tasks": "PLANS", "plog": "PLANS",
+                   "ev.plan": "PLANS", "mon.plan.iter": "PLANS", "mon.plan.chain": "PLANS", "mon.plan.disjoint": "PLANS", "mon.plan.count": "PLANS",
+                   "mon.plan.free": "PLANS", "hist": "STRUCTURE_REPORT", "strA": "STRUCTURE_REPORT", "mon.report": "STRUCTURE_REPORT",
+                   "draws": "UTILITY_THEORY", "ev.report": "UTILITY_THEORY"}
+
+
 def check_c15(out, tier):
+    """C15 owns what DEPENDS on the build: a build that does not compile / dies / deviates from the specification while
+    another build of the same program, able to observe the same thing, does not; and builds whose callback and
+    configuration sequences differ from each other.  A deviation every build shows is the general properties' matter."""
     camp = checks.c15_campaign(tier)
     for e in camp["errors"]:
         out.violations.append(dict(replay="fixtures/", what="build %s/%s fails under this feature set: %s" % (e["fixture"], e["variant"], e["msg"][:300].replace("\n", " "))))
@@ -268,31 +279,46 @@ def check_c15(out, tier):
         groups.setdefault(run["group"], []).append(run)
         for te in run["tlc_errors"]:
             out.machinery.append("TLC could not walk %s: %s" % (te["file"], te["msg"][-300:]))
-        for c in run["crashes"]:
-            n += 1
-            out.violations.append(dict(replay=checks.write_replay("C15", run["fixture"], run["variant"], c["file"], c["records"] + 1, ["crash"], n),
-                                       what="executor %s died: %s" % (run["fixture"], c["stderr"][-300:].replace("\n", " "))))
-        bad = [d for d in run["diffs"] if not d["tag"].endswith(".D10") and d["tag"] not in checks.UNATTRIBUTED]
-        per = {}
-        for d in bad:
-            per.setdefault(d["l"], []).append(d)
-        for l, ds in sorted(per.items())[:5]:
-            n += 1
-            out.violations.append(dict(replay=checks.write_replay("C15", run["fixture"], run["variant"], ds[0]["file"], l, sorted({d["tag"] for d in ds}), n),
-                                       what="%s (features %s, %s): record %d deviates from the specification: %s" % (run["fixture"], ",".join(run["features"]) or "none", run["variant"], l,
-                                            "; ".join("%s expected %s observed %s" % (d["tag"], d["detail"][0][:100], d["detail"][-1][:100]) for d in ds[:2]))))
-    for base, runs in groups.items():
+
+    def observable(run, tag):
+        f = C15_TAG_FEATURE.get(tag)
+        if tag.startswith("log.") or tag == "lg":
+            return bool({"LOG_INTERFACE", "VERBOSE_DEBUG_LOG"} & set(run["features"]))
+        return f is None or f in run["features"]
+    for gname, runs in groups.items():
+        crashed = [r for r in runs if r["crashes"]]
+        if crashed and len(crashed) < len(runs):
+            for r in crashed[:3]:
+                c = r["crashes"][0]
+                n += 1
+                out.violations.append(dict(replay=checks.write_replay("C15", r["fixture"], r["variant"], c["file"], c["records"] + 1, ["crash"], n),
+                                           what="executor %s died where other builds of the same program did not: %s" % (r["fixture"], c["stderr"][-300:].replace("\n", " "))))
+        keys = {id(r): {(d["l"], d["tag"]) for d in r["diffs"]} for r in runs}
+        for r in runs:
+            per = {}
+            for d in r["diffs"]:
+                if d["tag"].endswith(".D10") or d["tag"] in checks.UNATTRIBUTED:
+                    continue
+                others = [o for o in runs if o is not r and observable(o, d["tag"]) and o["checked"] >= d["l"]]
+                if others and any((d["l"], d["tag"]) not in keys[id(o)] for o in others):
+                    per.setdefault(d["l"], []).append(d)
+            for l, ds in sorted(per.items())[:3]:
+                n += 1
+                out.violations.append(dict(replay=checks.write_replay("C15", r["fixture"], r["variant"], ds[0]["file"], l, sorted({d["tag"] for d in ds}), n),
+                                           what="%s (features %s, payload %s, %s): record %d deviates from the specification while other builds of the same program do not: %s"
+                                                % (r["fixture"], ",".join(r["features"]) or "none", r["payload"], r["variant"], l,
+                                                   "; ".join("%s expected %s observed %s" % (d["tag"], d["detail"][0][:100], d["detail"][-1][:100]) for d in ds[:2]))))
         hashes = {r["behaviour_hash"] for r in runs}
         if len(hashes) > 1:
-            out.violations.append(dict(replay="fixtures/%s.json" % base.split("/")[0], what="the same program behaves differently across builds: " +
+            out.violations.append(dict(replay="fixtures/%s.json" % gname.split("/")[0], what="the same program (%s) behaves differently across builds: " % gname +
                                        ", ".join("%s=%s" % (r["fixture"], r["behaviour_hash"][:8]) for r in runs)))
     out.coverage.update(dict(
         evaluations=steps, distinct_nontrivial=len(camp["runs"]),
-        rule="the same seeded command lists (restricted to the common feature subset) on every build of the matrix {feature sets} x {single header, development "
+        rule="the same seeded command lists (three subsets: without optional features, with plans, with utility requests - each on the builds that have the feature) on every build of the matrix {feature sets} x {single header, development "
              "headers} x {g++ -std=c++14, clang++ -std=c++11}; each trace validated by TLC against the one specification and the callback/configuration "
              "sequences of all builds of a fixture compared with each other",
-        samples=[dict(build=r["fixture"], features=r["features"], compiler_variant=r["variant"], steps=r["checked"]) for r in camp["runs"][:4]],
-        builds=[dict(build=r["fixture"], features=r["features"], variant=r["variant"], payload=r["payload"], substitution_limit=r["limit"],
+        samples=[dict(build=r["fixture"], subset=r["subset"], features=r["features"], compiler_variant=r["variant"], steps=r["checked"]) for r in camp["runs"][:4]],
+        builds=[dict(build=r["fixture"], subset=r["subset"], features=r["features"], variant=r["variant"], payload=r["payload"], substitution_limit=r["limit"],
                      task_capacity=r["taskcap"]) for r in camp["runs"]]))
     out.assumptions += ["the enumerated feature sets stand for all 2^7 combinations", "TLC and the executor as for the behavioural properties"]
     return out.finish("exploration")
